@@ -34,6 +34,7 @@ def run(chk):
     chk.rule("R-COERCE", "period containers (list/tuple/array) are coerced before arithmetic or comparison: no TypeError site")
     chk.rule("R-PAIR", "gen_response_spectrum passes (interpolated values, interpolated dt) or (values, dt), never mixed; "
                        "interpolates exactly when target_dt < dt; target_dt = max(T_min/20, dt/min_dt_ratio); results stored in role order")
+    chk.rule("R-STEP", "the interpolation routine used for the spectra returns a step that never exceeds the target (C14's rounding-relation rule)")
     chk.rule("R-NONNEG", "all six spectra are non-negative with one entry per period")
     chk.rule("R-ENERGY", "energy spectra: degree 2 in the record, one entry per period, built from the velocity response; "
                          "input energy sums a*v*dt along time")
@@ -136,8 +137,32 @@ def run(chk):
                    derived="; ".join("%s: %s" % (e.loc, e.what) for e in te) or "periods coerced before use",
                    loc=te[0].loc if te else r.fi.loc(), stmt=te[0].stmt if te else None,
                    detail="periods=[0.2, 0.5] raises TypeError (the pseudo sibling accepts it)" if te else None)
+    for q in (PSEUDO, TRUE, NJR):
+        for kind in ("int-array", "int-list"):
+            def build_p(I, st, fi, kind=kind):
+                d = std_args()(I, st, fi)
+                el = AV(kind=K_SCALAR, dtype="int", shape=(), sign=S_NONNEG, origin=frozenset(["lit"]), tags=frozenset(["p:periods"]))
+                if kind == "int-list":
+                    d[fi.params[2]] = AV(kind=K_LIST, elem=el, origin=frozenset(["p:periods"]), tags=frozenset(["p:periods"]), shape=(LinExpr("P"),))
+                else:
+                    d[fi.params[2]] = AV(kind=K_ARRAY, dtype="int", shape=(LinExpr("P"),), sign=S_NONNEG, origin=frozenset(["p:periods"]),
+                                         tags=frozenset(["p:periods"]))
+                return d
+            from ..tyob import no_truncation
+            no_truncation(chk, "R-COERCE", q, build_p, "%s:%s(periods: %s)" % (P.fn(q).module.relpath, P.fn(q).name, kind), atoms=(R, DT, T),
+                          what="integer-typed periods")
     # ------------------------------------------------------------------ R-PAIR
     pair_rule(chk, setup)
+    # the interpolation routine used by gen_response_spectrum must itself honour the step rule (never coarser than the target)
+    from . import c14
+    from ..report import Check as _Check
+    sub = _Check(chk.pid, chk.tier, chk.P)
+    c14.run(sub)
+    for o in sub.obs:
+        if o.rule == "R-ROUND" and "interp_array_to_approx_dt" in o.construct:
+            o.rule = "R-STEP"
+            chk.obs.append(o)
+    chk.functions |= sub.functions
     # ------------------------------------------------------------------ R-ENERGY
     for q, series in (("eqsig.sdof.calc_resp_uke_spectrum", None), ("eqsig.sdof.calc_input_energy_spectrum", False),
                       ("eqsig.sdof.calc_input_energy_spectrum", True)):
@@ -310,9 +335,26 @@ def pair_rule(chk, setup):
         ok = (is_period_term(ps[0]) and is_dt_term(ps[1])) or (is_period_term(ps[1]) and is_dt_term(ps[0]))
         chk.ob("R-PAIR", c + "[target_dt]", "target_dt = max(T_min / 20, dt / min_dt_ratio)", ok,
                derived="max(%s ; %s)" % (ps[0].canon(), ps[1].canon()), loc=fi.loc(tgt), stmt=norm_stmt(tgt))
+    # the cached damping replaces xi exactly for the sentinel -1
+    xi_sentinel(chk, fi, c, "R-PAIR")
     # T_min is the first non-zero period
     mn = [n for n in ast.walk(fi.node) if isinstance(n, ast.Assign) and isinstance(n.targets[0], ast.Name) and
           n.targets[0].id == "min_non_zero_period"]
     idx = sorted(ast.unparse(n.value).split("[")[-1].rstrip("]") for n in mn)
     chk.ob("R-PAIR", c + "[T_min]", "T_min is period [0], or [1] when the first period is 0", idx == ["0", "1"],
            derived="assigned from indices %s" % idx, loc=fi.loc(mn[0]) if mn else fi.loc())
+
+
+def xi_sentinel(chk, fi, c, rule):
+    """`xi` is replaced by the cached damping exactly when it equals the sentinel -1 (an explicit xi = 0 must be honoured)"""
+    tests = [n for n in ast.walk(fi.node) if isinstance(n, ast.If) and any(isinstance(x, ast.Name) and x.id == "xi" for x in ast.walk(n.test))]
+    ok = len(tests) == 1
+    why = "%d test(s) on xi" % len(tests)
+    if ok:
+        t = tests[0].test
+        ok = isinstance(t, ast.Compare) and len(t.ops) == 1 and isinstance(t.ops[0], ast.Eq) and isinstance(t.left, ast.Name) and t.left.id == "xi" and \
+            ast.unparse(t.comparators[0]).replace(" ", "") in ("-1", "-1.0")
+        repl = [x for x in tests[0].body if isinstance(x, ast.Assign) and isinstance(x.targets[0], ast.Name) and x.targets[0].id == "xi"]
+        ok = ok and len(repl) == 1 and "_cached_xi" in ast.unparse(repl[0].value) and not tests[0].orelse
+        why = "test `%s`" % ast.unparse(t)
+    chk.ob(rule, c + "{xi sentinel}", "the cached damping is used exactly when xi == -1", ok, derived=why, loc=fi.loc(tests[0]) if tests else fi.loc())
